@@ -191,7 +191,7 @@ Print Assumptions c13_metrics_faithful_as_is.
 
 Definition ex_epoint (zt : N) : epoint := mkEp [] 10 20 4 None None (NF 0) 3 1 (-2) [1; 0; 2] 4 [1] zt [].
 Definition ex_rm (zt : N) : rmetrics :=
-  (mkRes [] [], [(mkScope (str "lib") [] [] [], [mkMetric (str "e") [] [] (MExp [ex_epoint zt] 2)])]).
+  (mkRes [] [], [(mkScope (str "lib") [] [] [] false, [mkMetric (str "e") [] [] (MExp [ex_epoint zt] 2)])]).
 Theorem c13_metrics_faithful_refuted :
   exists rm, (forall sm, In sm (snd rm) -> forallb metric_guard (snd sm) = true) /\
              metric_spec strict rm (rm_pb rm) = false /\ metric_spec lax_F5 rm (rm_pb rm) = true.
@@ -201,18 +201,34 @@ Proof.
 Qed.
 Print Assumptions c13_metrics_faithful_refuted.
 
-(** The specification's grouping predicate means what the property says: a decoded payload that
-    passes it (with plain equality on items and resources) holds a permutation of the batch - every
-    item exactly once - and every item lies under its own resource and its own scope.  (A statement
-    about Spec.v alone; with the theorems above it applies to the model's payload.) *)
-Theorem c13_spec_grouping_adequate : forall (B : Type) (D : forall a b : B, {a = b} + {a <> b})
+(** The judged grouping predicate [groups_ok] means what the property says (a statement about
+    Spec.v alone): a decoded payload that passes it (plain equality on items and resources) has one
+    group per resource; every item of every group is a batch item under a resource and a scope equal to
+    its own; and for every resource and scope the groups carrying that scope hold together exactly
+    the batch's items of that resource and scope (nothing lost, nothing duplicated).  A scope may
+    be split over several groups: OTLP allows it, and the code does it for a scope whose empty
+    attribute set is spelled both as the zero attribute.Set and as attribute.NewSet(). *)
+Theorem c13_spec_grouping_adequate : forall (B : Type) (D : forall a b : B, {a = b} + {a <> b}) (picky : B -> bool)
     (l : list (item B)) (o : list (resource * list (scope * list B))),
-  groups_ok (eqb_of D) (eqb_of resource_eq_dec) l o = true ->
-  Permutation (flat_map (fun rg => flat_map snd (snd rg)) o) (map it_body l) /\
-  forall R sgs S xs b, In (R, sgs) o -> In (S, xs) sgs -> In b xs ->
-    exists x, In x l /\ it_body x = b /\ it_res x = R /\ it_scope x = S.
+  groups_ok (eqb_of D) (eqb_of resource_eq_dec) picky l o = true ->
+  NoDup (map fst o) /\
+  (forall R sgs S xs b, In (R, sgs) o -> In (S, xs) sgs -> In b xs ->
+     exists x, In x l /\ it_body x = b /\ it_res x = R /\ it_scope x = S) /\
+  (forall R sgs S xs, In (R, sgs) o -> In (S, xs) sgs ->
+     Permutation (gather S sgs) (members (eqb_of resource_eq_dec) R S l)) /\
+  (forall x, In x l -> exists sgs xs, In (it_res x, sgs) o /\ In (it_scope x, xs) sgs).
 Proof. exact @groups_ok_adequate. Qed.
 Print Assumptions c13_spec_grouping_adequate.
+
+(** The strict reading [groups_exact] (one group per (resource, scope)) implies the judged one, and a
+    payload that passes it holds a permutation of the whole batch. *)
+Theorem c13_spec_grouping_exact : forall (B : Type) (D : forall a b : B, {a = b} + {a <> b})
+    (l : list (item B)) (o : list (resource * list (scope * list B))),
+  groups_exact (eqb_of D) (eqb_of resource_eq_dec) l o = true ->
+  (forall picky, groups_ok (eqb_of D) (eqb_of resource_eq_dec) picky l o = true) /\
+  Permutation (flat_map (fun rg => flat_map snd (snd rg)) o) (map it_body l).
+Proof. intros B D l o H. split; [intros picky; now apply groups_exact_ok | now apply (groups_exact_adequate D)]. Qed.
+Print Assumptions c13_spec_grouping_exact.
 
 (** ** Zipkin *)
 
@@ -232,14 +248,14 @@ Proof. exact zipkin_batch_ok. Qed.
 Print Assumptions c13_zipkin_batch.
 
 (** ** Non-vacuity: concrete values meeting the hypotheses *)
-Definition ex_scope (n : bytes) : scope := mkScope n (str "v1") [] [(str "k", AInts [])].
+Definition ex_scope (n : bytes) : scope := mkScope n (str "v1") [] [(str "k", AInts [])] false.
 Definition ex_sp (n : N) (links : list link) : span :=
   mkSpan (repeat 7 16) [0; 0; 0; 0; 0; 0; 0; n] (str "a=1") (repeat 0 8) false (str "op") 3 1700000000000000000 1700000000000001500
          [(str "http.method", AStr (str "GET")); (str "xs", AF64s [])] [mkEvent (str "e") 1700000000000000007 [] 4]
          links 1 (str "boom") 0 4294967295 3.
 Definition ex_batch : list (item span) :=
   [mkItem (ex_res (str "urn:1")) (ex_scope (str "lib/a")) (ex_sp 1 []);
-   mkItem (mkRes [] []) (mkScope [] [] [] []) (ex_sp 2 [mkLink (repeat 9 16) (repeat 8 8) (str "a=1") true [(str "k", ABool true)] 2]);
+   mkItem (mkRes [] []) (mkScope [] [] [] [] false) (ex_sp 2 [mkLink (repeat 9 16) (repeat 8 8) (str "a=1") true [(str "k", ABool true)] 2]);
    mkItem (ex_res (str "urn:1")) (ex_scope (str "lib/b")) (ex_sp 3 []);
    mkItem (ex_res (str "urn:1")) (ex_scope (str "lib/a")) (ex_sp 4 [])].
 Example ex_batch_hyps :
@@ -257,6 +273,16 @@ Example ex_batch_groups :
 Proof. vm_compute. reflexivity. Qed.
 Example ex_batch_spec : trace_spec strict ex_batch (spans_pb ex_batch) = true.
 Proof. vm_compute. reflexivity. Qed.
+(** one scope spelled with the zero attribute set and with an allocated empty one: two groups with
+    the same header, every span once, the payload passes the judged spec *)
+Definition ex_split : list (item span) :=
+  [mkItem (ex_res []) (mkScope (str "lib") [] [] [] false) (ex_sp 1 []);
+   mkItem (ex_res []) (mkScope (str "lib") [] [] [] true) (ex_sp 2 []);
+   mkItem (ex_res []) (mkScope (str "lib") [] [] [] false) (ex_sp 3 [])].
+Example ex_split_spec :
+  map (fun rg => map (fun sg => length (snd sg)) (snd rg)) (group ex_split) = [[2; 1]]%nat /\
+  trace_spec strict ex_split (spans_pb ex_split) = true.
+Proof. split; vm_compute; reflexivity. Qed.
 Example ex_values :
   val_of_pb (value_pb (AInts [1; -2]%Z)) = Some (AInts [1; -2]%Z) /\
   lval_of_pb (lval_pb (LMap [(str "k", LSlice [LInt 1; LBytes [0; 255]; LMap []])])) = LMap [(str "k", LSlice [LInt 1; LBytes [0; 255]; LMap []])].
